@@ -10,7 +10,7 @@ PROTOS = [(v, p) for v in VERSIONS for p in PURPOSES]
 
 # crate-local functions kept symbolic (not inlined) when protocol terms are normalised: the inherent
 # constructors of the protocol building blocks, the token splitter and the claim checker
-KEEP = [r"header::<impl core::default::Default for crate::core::header::Header<", r"parse_raw_token$", r"format_token$",
+KEEP = [r"header::<impl core::default::Default for crate::core::header::Header<", r"header::Header<.*> as core::default::Default>::default$", r"parse_raw_token$", r"format_token$",
         r"<impl crate::core::common::[a-z_]+::(Tag|AuthenticationKey|EncryptionKey|CipherText|RawPayload)<[^>]*>>::\w+$",
         r"PreAuthenticationEncoding::parse$", r"keys::<impl core::convert::From<&\[u8\]> for crate::core::key::keys::Key<KEYSIZE>>::from$",
         r"keys::Key::<KEYSIZE>::try_new_random$", r"verify_claims$", r"core::ops::arith::Add<", r"build_payload_from_claims$", r"verify_ready_to_build$",
